@@ -189,6 +189,17 @@ func c15CheckEncode(r *ev.Result, class string, src []byte) {
 	if m := uu.MaxEncodedLen(src); m < len(enc) {
 		c15Viol(r, "maxencodedlen/"+class, fmt.Sprintf("MaxEncodedLen=%d < %d", m, len(enc)), "encode", src)
 	}
+	/* A destination without any spare capacity (the append has to move
+	it): its contents come along. */
+	tight := []byte("PREFX")[:5:5]
+	var got2 []byte
+	func() {
+		defer func() { recover() }()
+		got2 = uu.AppendEncode(tight, s)
+	}()
+	if nil != got2 && (!bytes.HasPrefix(got2, []byte("PREFX")) || !bytes.Equal(got2[5:], want)) {
+		c15Viol(r, "encode-dst-prefix/"+class, fmt.Sprintf("AppendEncode to a full destination: result begins %q, want the destination's %q followed by the encoding", trunc(got2[:min(len(got2), 8)]), "PREFX"), "encode", src)
+	}
 	/* Round trip through the decoder. */
 	c15CheckDecode(r, class, want, src, true)
 }
@@ -242,6 +253,17 @@ func c15CheckDecode(r *ev.Result, class string, enc, orig []byte, mustEqual bool
 	}
 	if string(dback[:5]) != "PREFX" {
 		c15Viol(r, "decode-dst-prefix/"+class, "AppendDecode changed the existing contents of dst", "decode", enc)
+	}
+	if nil == err {
+		tight := []byte("PREFX")[:5:5]
+		var got2 []byte
+		func() {
+			defer func() { recover() }()
+			got2, _ = uu.AppendDecode(tight, s)
+		}()
+		if nil != got2 && (!bytes.HasPrefix(got2, []byte("PREFX")) || !bytes.Equal(got2[5:], got[min(5, len(got)):])) {
+			c15Viol(r, "decode-dst-prefix/"+class, fmt.Sprintf("AppendDecode to a full destination: result begins %q, want the destination's %q followed by the decoded bytes", trunc(got2[:min(len(got2), 8)]), "PREFX"), "decode", enc)
+		}
 	}
 	if nil != err {
 		var de uu.DecodeError
